@@ -305,16 +305,27 @@ def run_case(case: dict) -> dict:
         return f"{p}_{k[0]}"
 
     if case.get("devices") and case["params"]["ir_version"] >= 11:
-        try:
-            cfg = model.add_device_configuration("cfg0", num_devices=2)
-            for n in list(model.graph)[:3]:
-                t = n.outputs[0]
-                if t.shape is not None and len(t.shape) > 0:
-                    n.shard(t, configuration=cfg, axis=0, num_shards=2, device_indices=(0, 1))
+        drng = random.Random(case["model_seed"] ^ 0xD0C)
+        cfgs = [model.add_device_configuration("cfg0", num_devices=2)]
+        if drng.random() < 0.4:
+            cfgs.append(model.add_device_configuration("cfg1", num_devices=4, device_names=["a", "b", "c", "d"]))
+        # annotate nodes anywhere: main graph, control-flow bodies at any depth, function bodies
+        everywhere = list(model.graph.all_nodes()) + [n for f in model.functions.values() for n in f.all_nodes()]
+        drng.shuffle(everywhere)
+        for n in everywhere[: drng.choice([1, 3, 6])]:
+            cfg = drng.choice(cfgs)
+            try:
+                cands = [v for v in list(n.outputs) + list(n.inputs) if v is not None and v.name and v.shape is not None and len(v.shape) > 0]
+                if cands and drng.random() < 0.8:
+                    n.shard(drng.choice(cands), configuration=cfg, axis=0, num_shards=2, device_indices=(0, 1))
                     inc("device_annotations")
-            list(model.graph)[0].set_pipeline_stage(cfg, 1)
-        except Exception:  # noqa: BLE001
-            pass
+                    if n.graph is not None and n.graph is not model.graph and not any(n.graph is f.graph for f in model.functions.values()):
+                        inc("device_annotations_in_subgraph")
+                if drng.random() < 0.4:
+                    n.set_pipeline_stage(cfg, drng.randrange(3))
+                    inc("device_pipeline_stage")
+            except Exception:  # noqa: BLE001
+                inc("device_annotation_rejected")
     for e in case["edits"]:
         try:
             out = apply_edit(model, e, fresh)
@@ -403,6 +414,6 @@ def finding_key(case: dict, violation: dict) -> str:
 
 def check_reach(agg: dict, tier: str):
     st = agg["stats"]
-    need = ["to_proto_ok", "to_proto_raised", "roundtrip_compared", "edit_retensor_ok", "edit_empty_optional_output_ok", "edit_none_input_ok", "edit_seq_type_ok", "device_annotations"]
+    need = ["to_proto_ok", "to_proto_raised", "roundtrip_compared", "edit_retensor_ok", "edit_empty_optional_output_ok", "edit_none_input_ok", "edit_seq_type_ok", "device_annotations", "device_annotations_in_subgraph"]
     missing = [k for k in need if not st.get(k)]
     return missing if agg["runs"] > 300 else []
